@@ -94,8 +94,18 @@ class FuncInfo:
                 elif isinstance(n, (ast.Import, ast.ImportFrom)):
                     for al in n.names:
                         names.add((al.asname or al.name).split(".")[0])
+            # names declared `global` are the module's, not the function's
+            names -= self.global_names
             self._locals = names
         return self._locals
+
+    @property
+    def global_names(self):
+        out = set()
+        for n in walk_own(self.node):
+            if isinstance(n, ast.Global):
+                out |= set(n.names)
+        return out
 
     @property
     def aliases(self):
